@@ -966,6 +966,17 @@ func (h *hist) queryRefused(class string) {
 		if h.rng.Intn(6) == 0 {
 			n = int64(h.off) + int64(wmodel.Week)*int64(2+h.rng.Intn(2000))
 		}
+		if h.rng.Intn(4) == 0 {
+			// numbers beyond 32 bits whose low 32 bits name a servable week: numerically
+			// they are far in the future (or misaligned) and must be refused as well
+			b := int64(h.off) + int64(wmodel.Week*h.rng.Intn(2))
+			if len(h.arch) > 0 && h.rng.Intn(2) == 0 {
+				b = int64(wmodel.Week * h.rng.Intn(len(h.arch)))
+			}
+			a := []int64{1, 2, 3, 1 << 30}[h.rng.Intn(4)]
+			n = a<<32 + b
+			h.r.Count("query.future.beyond32bits", 1)
+		}
 	default:
 		c := []int64{1, 2015, 2017, int64(h.off) + 1, int64(h.off) - 1, int64(h.off) + 2015, int64(h.off) + 2017, int64(h.off) + 4031, int64(h.off) + 4033, 4294967295}
 		if len(h.arch) > 0 {
